@@ -238,7 +238,7 @@ func monC04(c *Case, tr *Trace) []Violation {
 			// (if the teardown call itself was held up behind a full bounded carrier, returned != fired, the clause is moot)
 			// (and on a revision-zero tunnel the receive loop may be parked behind a consumer that does not read, so the
 			// tunnel cannot notice its own end until that consumer moves: asserted only with flow control negotiated)
-			if callerSideLocal(c.Cfg.Dir, ev.Kind) && er.Returned == er.Fired && negotiatedFC(tr) && o.Start <= er.Fired && o.End > er.Fired && !o.CapBlocked && (o.Kind == "recv" || o.Kind == "send" || o.Kind == "header" || o.Kind == "invoke") {
+			if callerSideLocal(c.Cfg.Dir, ev.Kind) && er.Returned == er.Fired && negotiatedFC(tr) && !parkArmed(c) && o.Start <= er.Fired && o.End > er.Fired && !o.CapBlocked && (o.Kind == "recv" || o.Kind == "send" || o.Kind == "header" || o.Kind == "invoke") {
 				add("caller_not_released_immediately", o.End, "rpc %d: %s#%d was blocked when the tunnel ended at step %d but returned only at step %d", i, o.Kind, o.Idx, er.Fired, o.End)
 			}
 			terminalOK := (o.Kind == "recv" && o.Code == CodeEOF) || (o.Kind == "invoke" && o.Code == CodeNil)
@@ -318,4 +318,15 @@ func labelsC04(c *Case, tr *Trace) []string {
 		ls = append(ls, "phase="+c.RPCs[i].Shape+"/"+phase+"/"+c.Events[0].Kind)
 	}
 	return ls
+}
+
+// parkArmed: the harness itself may hold a goroutine at a park-type yield point (inside the carrier's SendMsg, say, with the
+// library's send mutex taken); what waits behind it is not the library waiting, so "immediately" cannot be demanded.
+func parkArmed(c *Case) bool {
+	for _, y := range c.Yields {
+		if y.Kind == "park" {
+			return true
+		}
+	}
+	return false
 }
